@@ -121,7 +121,7 @@ def mtmAuto (N : Nat) (onesided : Bool) (T : Nat) (w : Nat → Nat → R) (X : N
   dblIf (fun v => ofNat 2 * v) onesided N k (re sf / denom)
 
 /-- `mtm_cross_spectrum(tx, ty, (wx, wy))`: denominator `(Σ|wx|²)^½ (Σ|wy|²)^½`, complex result -/
-def mtmCross (N : Nat) (onesided : Bool) (T : Nat) (wx wy : Nat → Nat → R)
+def mtmCross [RSqrt R] (N : Nat) (onesided : Bool) (T : Nat) (wx wy : Nat → Nat → R)
     (X Y : Nat → Nat → K) (k : Nat) : K :=
   let denom := sqrt (rsum T fun t => wx t k * wx t k) * sqrt (rsum T fun t => wy t k * wy t k)
   let sf := ksum T fun t => kscale (wx t k) (X t k) * conj (kscale (wy t k) (Y t k))
@@ -148,16 +148,16 @@ def multiTaperPsdList (tw : Nat → K) (Fs : R) (n N : Nat) (onesided : Bool) (T
     (multiTaperPsdOf Fs N onesided T w (memoGet2 Y fun t => taperedSpec tw N n (h t) x))
 
 /-- `multi_taper_csd` from the tapered spectra `Y i t` and per-channel weights `w i t k` -/
-def multiTaperCsdOf (Fs : R) (N : Nat) (onesided : Bool) (T : Nat) (w : Nat → Nat → Nat → R)
+def multiTaperCsdOf [RSqrt R] (Fs : R) (N : Nat) (onesided : Bool) (T : Nat) (w : Nat → Nat → Nat → R)
     (Y : Nat → Nat → Nat → K) (i j k : Nat) : K :=
   kscale (ofNat 1 / Fs)
     (completeHermitian (lowerPairs fun i j k => mtmCross N onesided T (w i) (w j) (Y i) (Y j) k) i j k)
 
-def multiTaperCsdAt (tw : Nat → K) (Fs : R) (n N : Nat) (onesided : Bool) (T : Nat)
+def multiTaperCsdAt [RSqrt R] (tw : Nat → K) (Fs : R) (n N : Nat) (onesided : Bool) (T : Nat)
     (h : Nat → Nat → R) (w : Nat → Nat → Nat → R) (x : Nat → Nat → K) (i j k : Nat) : K :=
   multiTaperCsdOf Fs N onesided T w (fun i t => taperedSpec tw N n (h t) (x i)) i j k
 
-def multiTaperCsdList (tw : Nat → K) (Fs : R) (n N M : Nat) (onesided : Bool) (T : Nat)
+def multiTaperCsdList [RSqrt R] (tw : Nat → K) (Fs : R) (n N M : Nat) (onesided : Bool) (T : Nat)
     (h : Nat → Nat → R) (w : Nat → Nat → Nat → R) (x : Nat → Nat → K) : List K :=
   let Y := memoArr3 M T N fun i t => taperedSpec tw N n (h t) (x i)
   matList M (Generated.SpecIdx.mt_csd_last_freq N onesided)
@@ -228,6 +228,8 @@ end generic
     mtcsd        <Fs> <N> <sides> <M> <T> <tapers> <wmode> <weights: T | M*T*L> <x: M*n complex>
     welch        <Fs> <N> <noverlap> <sides> <M> <window: N real> <x: M*n complex>   (M = 1: vector)
   results: `ok <list of reals>` or `ok <interleaved complex list>`.
+    xperiodogram / xpcsd / xwelch: the same operations run EXACTLY over ℚ / ℚ(i) (NFFT ∈ {1,2,4},
+    all numbers as `p/q`); results are exact rationals.
 -/
 
 open Nitime.Proto
@@ -283,6 +285,37 @@ def handle (args : List String) : String :=
       let tw := twiddleFn N (twiddleTable N)
       if M = 1 then "ok " ++ showCList (welchPsdList tw Fs n N nov one (ffn w) (cfn x))
       else "ok " ++ showCList (welchSpectraList tw Fs n N nov M one (ffn w) (chan x n))
+    | _, _, _, _, _, _ => "bad-op"
+  -- exact runs (ℚ / ℚ(i)); NFFT ∈ {1, 2, 4}; arguments as rationals `p/q`
+  | ["xperiodogram", fs, nfft, sides, xs] =>
+    match parseRat? fs, nfft.toNat?, parseQList? xs with
+    | some Fs, some N, some x =>
+      match twiddleQ? N with
+      | some tw => "ok " ++ showRatList (periodogramList tw Fs x.size N (sides == "1") (qfn x))
+      | none => "bad-op"
+    | _, _, _ => "bad-op"
+  | ["xpcsd", fs, nfft, sides, m, xs] =>
+    match parseRat? fs, nfft.toNat?, m.toNat?, parseQList? xs with
+    | some Fs, some N, some M, some x =>
+      if M = 0 then "bad-op" else
+      let n := x.size / M
+      match twiddleQ? N with
+      | some tw => "ok " ++ showQList (periodogramCsdList tw Fs n N M (sides == "1")
+          (fun i j => if j < n then qfn x (i * n + j) else ⟨0, 0⟩))
+      | none => "bad-op"
+    | _, _, _, _ => "bad-op"
+  | ["xwelch", fs, nfft, nov, sides, m, win, xs] =>
+    match parseRat? fs, nfft.toNat?, nov.toNat?, m.toNat?, parseRatList? win, parseQList? xs with
+    | some Fs, some N, some nov, some M, some w, some x =>
+      if M = 0 ∨ N = 0 ∨ nov ≥ N then "bad-op" else
+      let n := x.size / M
+      let one := sides == "1"
+      match twiddleQ? N with
+      | some tw =>
+        let xc : Nat → Nat → Q2 := fun i j => if j < n then qfn x (i * n + j) else ⟨0, 0⟩
+        if M = 1 then "ok " ++ showQList (welchPsdList tw Fs n N nov one (rfn w) (xc 0))
+        else "ok " ++ showQList (welchSpectraList tw Fs n N nov M one (rfn w) xc)
+      | none => "bad-op"
     | _, _, _, _, _, _ => "bad-op"
   | _ => "bad-op"
 
